@@ -597,6 +597,9 @@ func (m *Monitor) onStatement(s *framework.Statement, phase string, cp int) {
 			return
 		}
 		m.Stats["rollbacks_checked"]++
+		if DRAEnabled {
+			m.Stats["rollbacks_checked_with_claim_view"]++ // DRA: the compared dumps contain the claim lines
+		}
 		if d := diffDump(want, Dump(m.ssn)); len(d) > 0 {
 			m.reportDiff("rollback-dump-mismatch", d, s)
 		}
@@ -629,6 +632,9 @@ func (m *Monitor) onStatement(s *framework.Statement, phase string, cp int) {
 			return
 		}
 		m.Stats["discards_checked"]++
+		if DRAEnabled {
+			m.Stats["discards_checked_with_claim_view"]++
+		}
 		if d := diffDump(st.d0, Dump(m.ssn)); len(d) > 0 {
 			m.reportDiff("discard-dump-mismatch", d, s)
 		}
